@@ -305,6 +305,19 @@ func init() {
 					in.Toks = gen.DeepInput(rt, u.c)
 				}
 				st := HistStep{Toks: u.names(in.Toks), FailAt: -1}
+				if i > 0 && rapid.IntRange(0, 3).Draw(rt, "relatedToPrevious") == 0 {
+					// the previous input once more, or with another tail: what the
+					// object remembers of positions in the last parse meets equal positions
+					prev := c.Hist[i-1].Toks
+					st.Toks = append([]string{}, prev...)
+					if len(prev) > 1 && rapid.Bool().Draw(rt, "otherTail") {
+						k := rapid.IntRange(1, len(prev)-1).Draw(rt, "keepPrefix")
+						st.Toks = append(append([]string{}, prev[:k]...), u.names(in.Toks)...)
+						if len(st.Toks) > 60 && len(prev) <= 60 {
+							st.Toks = st.Toks[:60]
+						}
+					}
+				}
 				if rapid.IntRange(0, 4).Draw(rt, "injectFail") == 0 {
 					st.FailAt = rapid.IntRange(0, 6).Draw(rt, "failAtH")
 				}
